@@ -31,6 +31,8 @@ var c03Trees = [][]extOp{
 	{{Attach: 6, Pred: 1}, {Attach: 7, Pred: 6}},    // png <- always ; pdf <- empty
 	{{Attach: 0, Pred: 8}},                          // root <- detector that calls SetLimit(0) and rejects
 	{{Attach: 2, Pred: 9}, {Attach: 0, Pred: 8}},    // text/plain <- SetLimit(5) rejects ; root <- SetLimit(0) rejects
+	// Extend called on a detection result (a detached copy): the tree stays as it is
+	{{Attach: 10, Pred: 5}, {Attach: 10, Pred: 1, Aliases: 1}},
 	// a chain of extensions below application/json: nodes at depth 3, 4 and 5
 	// (the built-in tree is three levels deep)
 	{{Attach: 4, Pred: 4}, {Attach: 8, Pred: 1, Aliases: 1}, {Attach: 8, Pred: 4}, {Attach: 8, Pred: 1, NoExt: true}},
